@@ -91,7 +91,13 @@ type World struct {
 	delay        atomic.Pointer[func(kind string)]
 	storeFault   atomic.Pointer[func(kind string) error]
 	handlerWatch atomic.Pointer[WatchHook]
+	storeRPCHook atomic.Pointer[func(method string)]
 }
+
+// SetStoreRPCHook installs a function called after every unary Atomix RPC that a goroutine without a task
+// (a store's own goroutines: watch replay, fan-out) has issued; C08 uses it to hold a Watch between its replay
+// read and whatever it does next
+func (w *World) SetStoreRPCHook(f func(method string)) { w.storeRPCHook.Store(&f) }
 
 // SetDelay installs a function called at every decorated call (S2 schedule perturbation)
 func (w *World) SetDelay(f func(kind string)) { w.delay.Store(&f) }
@@ -269,9 +275,16 @@ func (inc *Incarnation) gate(kind string, effect bool) {
 // goroutine. Goroutines of the system under test (controller tasks, handlers) are parked here once the
 // incarnation is dead, and the process can be killed just before its n-th Atomix write: that addresses the
 // gaps between the individual Atomix writes of one store method (path values, then the entry).
-func (inc *Incarnation) rpcTap(method string) {
+func (inc *Incarnation) rpcTap(method string, after bool) {
 	if currentTaskObj() == nil {
-		return // the harness' own reads, store-internal goroutines
+		// the harness' own reads and store-internal goroutines (watch replay, fan-out): only the optional hook
+		if h := inc.w.storeRPCHook.Load(); h != nil && after && !inc.dead.Load() {
+			(*h)(method)
+		}
+		return
+	}
+	if after {
+		return
 	}
 	if inc.dead.Load() {
 		select {}
